@@ -3,6 +3,7 @@ import numpy as np
 from lib import common as C, het as H
 
 GEN = []
+IMPORTS = ['C08/kernel_weights', 'C08/lottery_1d_laws', 'C08/lottery_2d_laws', 'C08/markov_laws', 'C08/combined_shock_product_rule', 'C17/robust_bracket', 'C17/coord_reproduces_query', 'C17/monotone_equals_robust']
 TRUSTED = ['user-supplied backward, hetinput and hetoutput functions (called as black boxes by the reference recursion)', 'transition operators (C08)']
 ASSUMPTIONS = ['no Coq model of the HetBlock/StageBlock loops was built: this check is an implementation-level differential test against an independent dense numpy '
                'recursion; it is reported at level "other", not as a proof']
@@ -97,6 +98,17 @@ def check(rng, deep):
             C.push(out, dict(what='stage-block nonlinear path differs from the backward-function block (which matches the reference recursion)', input=dict(kind='recursion', block='stage', shocked=sorted(sh)),
                              observed=float(dev), signature=dict(op='stage-recursion', pulse=any(v[0] == 0 and np.any(v != 0) for v in sh.values()))))
         compare('pair_het', m.pair_het, ssh, sh, T, out)
+    # the stage rendition of the household with a movable borrowing limit: policies leave the grid at the bottom (and the top on a short grid) along the path
+    for cal, sh in ((m.LOOSE_CALIB, {'blim': np.r_[0.0, -0.3, -0.3, -0.1, 0.0, 0.0]}), (dict(m.LOOSE_CALIB, max_a=4.0, n_a=14, beta=0.975), {'r': np.r_[0.0, 0.02, 0.02, 0.01, 0.0, 0.0], 'w': 0.05 * np.ones(T)})):
+        n += 1
+        s1, s2 = m.loose.steady_state(cal), m.loose_stage.steady_state(cal)
+        a, b = m.loose.impulse_nonlinear(s1, sh), m.loose_stage.impulse_nonlinear(s2, sh)
+        dev = max(np.abs(a[k] - b[k]).max() for k in ('A', 'C'))
+        if dev > 1e-7:
+            C.push(out, dict(what='stage-block nonlinear path with policies outside the asset grid differs from the backward-function block (which matches the reference recursion)',
+                             input=dict(kind='recursion', block='loose_stage', shocked=sorted(sh), calibration={k: v for k, v in cal.items() if isinstance(v, (int, float))}), observed=float(dev),
+                             signature=dict(op='stage-recursion', off_grid=True)))
+        compare('loose', m.loose, s1, sh, T, out)
     return out, n
 
 
